@@ -149,3 +149,68 @@ def is_norm_expr(e, asg, depth=0):
         vals = [v for v, p, st in asg.get(e.id, []) if p is None and not isinstance(v, ast.AugAssign)]
         return bool(vals) and all(is_norm_expr(v, asg, depth + 1) for v in vals)
     return False
+
+
+# ------------------------------------------------------------------------------------------------
+def buffer_dtype_obligations(idx, rep, init, rule, operand_names=("start_vector", "rhs", "v0")):
+    """DTYPE: the work arrays allocated by a Krylov initialiser receive products A @ q, so their dtype must be
+    influenced by the operator's dtype at every call site (typed by the start vector alone, a complex operator run
+    from a real start vector is silently truncated to its real part).  Evaluated for a caller-supplied start vector
+    (the branch that replaces a missing start vector by a random probe of the operator's dtype is excluded)."""
+    from sa.dtype import ARG, DType, OP
+
+    class KDType(DType):
+        def __init__(self, idx_, op_param, operand):
+            super().__init__(idx_, operand)
+            self.op_param = op_param
+
+        def param(self, fi, name):
+            if name == self.operand:
+                return ARG
+            if name == self.op_param:
+                return OP
+            return frozenset()
+
+        def follow_callee(self, callee):
+            return True
+
+    allocs = [c for c in df.calls(init.node, into_nested=False) if df.is_xnp_call(c) in ("zeros", "empty", "ones")]
+    n = 0
+    for caller in idx.funcs.values():
+        if caller.module is not init.module or caller is init:
+            continue
+        for call in df.calls(caller.node, into_nested=False):
+            if not (isinstance(call.func, ast.Name) and call.func.id == init.short):
+                continue
+            opp = next((p for p in caller.params if p == "A"), caller.params[0] if caller.params else None)
+            operand = next((p for p in caller.params if p in operand_names), None)
+            if operand is None:
+                continue
+            d = KDType(idx, opp, operand)
+            env0 = {operand: ARG}
+            bound = {}
+            for i, a in enumerate(call.args):
+                if i < len(init.params):
+                    bound[init.params[i]] = d.flat(d.eval_in(caller, a, env0))
+            for k in call.keywords:
+                if k.arg:
+                    bound[k.arg] = d.flat(d.eval_in(caller, k.value, env0))
+            for z in allocs:
+                dt = next((k.value for k in z.keywords if k.arg == "dtype"), z.args[1] if len(z.args) > 1 else None)
+                if dt is None:
+                    continue
+                n += 1
+                src = d.flat(d.eval_in(init, dt, bound))
+                tgt = getattr(getattr(z, "_parent", None), "targets", None)
+                ordinal = allocs.index(z) + 1
+                construct = f"{caller.short}->{init.short}:buffer{ordinal}"
+                loc = [idx.loc(caller.module, call), idx.loc(init.module, z)]
+                if "op" in src:
+                    rep.proved(rule, construct, f"buffer `{ast.unparse(tgt[0]) if tgt else '?'}` is typed by {sorted(src)}: the operator's dtype reaches it", locs=loc)
+                elif "unknown" in src:
+                    rep.undecided(rule, construct, f"dtype sources of the buffer: {sorted(src)}", locs=loc)
+                else:
+                    rep.refuted(rule, construct, f"buffer `{ast.unparse(tgt[0]) if tgt else '?'}` is typed by {sorted(src) or ['a constant']} only: products with a complex operator stored into it lose "
+                                f"their imaginary part when `{operand}` is real", detail="narrow", locs=loc)
+    if not n:
+        rep.undecided(rule, f"{init.short}:buffers", "no call site with a start-vector parameter found")
